@@ -294,8 +294,13 @@ func CheckC10(h *History, blk *BlockRecord) []Violation {
 					amm, _ := h.W.App.AmmKeeper.GetPool(rctx, mtp.AmmPoolId)
 					if hh, err := h.W.App.PerpetualKeeper.GetMTPHealth(rctx, mtp, amm, ptypes.BaseCurrency); err == nil {
 						h.Labels["c10-open-health-checked"]++
-						if hh.LTE(sf) {
-							out = append(out, Violation{Sig: "C10/open-left-unhealthy-position", Detail: fmt.Sprintf("a successful perpetual open left MTP %d with health %s <= safety factor %s (height %d)", mtp.Id, hh, sf, cur.Height)})
+						// two measures: the health the chain itself stored for the position when the open finished, and the
+						// health recomputed on the committed state. The second prices the position against the NEXT block's
+						// pool snapshot (which already contains this open's own borrow), the first against the snapshot of the
+						// block the open ran in; for a position opened at the very edge they differ in the fourth digit, so
+						// the recomputed value is given 1 % of head-room, the stored one none
+						if mtp.MtpHealth.LTE(sf) || hh.LTE(sf.Mul(sdkmath.LegacyMustNewDecFromStr("0.99"))) {
+							out = append(out, Violation{Sig: "C10/open-left-unhealthy-position", Detail: fmt.Sprintf("a successful perpetual open left MTP %d with health %s (stored at the open: %s) <= safety factor %s (height %d)", mtp.Id, hh, mtp.MtpHealth, sf, cur.Height)})
 						}
 					}
 				}
@@ -306,8 +311,8 @@ func CheckC10(h *History, blk *BlockRecord) []Violation {
 					sf := h.W.App.LeveragelpKeeper.GetParams(rctx).SafetyFactor
 					if hh, err := h.W.App.LeveragelpKeeper.GetPositionHealth(rctx, p); err == nil {
 						h.Labels["c10-open-health-checked"]++
-						if hh.LTE(sf) {
-							out = append(out, Violation{Sig: "C10/open-left-unhealthy-position", Detail: fmt.Sprintf("a successful leveragelp open left position %d with health %s <= safety factor %s (height %d)", p.Id, hh, sf, cur.Height)})
+						if (!p.PositionHealth.IsNil() && p.PositionHealth.IsPositive() && p.PositionHealth.LTE(sf)) || hh.LTE(sf.Mul(sdkmath.LegacyMustNewDecFromStr("0.99"))) {
+							out = append(out, Violation{Sig: "C10/open-left-unhealthy-position", Detail: fmt.Sprintf("a successful leveragelp open left position %d with health %s (stored at the open: %s) <= safety factor %s (height %d)", p.Id, hh, p.PositionHealth, sf, cur.Height)})
 						}
 					}
 				}
